@@ -38,6 +38,7 @@ type cmafIngesterMgr struct {
 	state     ingesterState
 	s         *Server
 	cancels   map[uint64]context.CancelFunc
+	mu        sync.RWMutex // protects ingesters and cancels
 }
 
 type cmafIngester struct {
@@ -75,6 +76,8 @@ func (cm *cmafIngesterMgr) Start() {
 }
 
 func (cm *cmafIngesterMgr) Close() {
+	cm.mu.RLock()
+	defer cm.mu.RUnlock()
 	for i, cancel := range cm.cancels {
 		if cm.ingesters[i].state == ingesterStateRunning {
 			cancel()
@@ -183,12 +186,16 @@ func (cm *cmafIngesterMgr) NewCmafIngester(req CmafIngesterSetup) (nr uint64, er
 	if c.dur != nil {
 		c.nrSegsToSend = m.Ptr(*c.dur * 1000 / asset.SegmentDurMS)
 	}
+	cm.mu.Lock()
 	cm.ingesters[nr] = &c
+	cm.mu.Unlock()
 
 	return nr, nil
 }
 
 func (cm *cmafIngesterMgr) startIngester(nr uint64) {
+	cm.mu.Lock()
+	defer cm.mu.Unlock()
 	c, ok := cm.ingesters[nr]
 	if !ok {
 		return
